@@ -77,6 +77,12 @@ fn enc_meta(m: BTreeMetadata) -> Vec<u8> {
     cbor2::to_writer(&MetaWrap { metadata: m }, &mut v).expect("encode metadata");
     v
 }
+/// `(key, posting_entry_size)` of every posting of a bucket blob: the estimate `compact_buckets` packs by
+fn bucket_sizes(d: &[u8]) -> Vec<(i64, usize)> {
+    let b: BucketDec = cbor2::from_reader(d).expect("bucket blob decodes");
+    b.p.iter().map(|(k, p)| (*k, cbor2::serialized_size(&(k, p)).map(|n| n as usize).unwrap_or(0) + 2)).collect()
+}
+
 fn dec_bucket(d: &[u8]) -> BTreeMap<i64, Vec<u64>> {
     let b: BucketDec = cbor2::from_reader(d).expect("bucket blob decodes");
     b.p.into_iter().map(|(k, (_, _, ids))| (k, ids)).collect()
@@ -189,6 +195,8 @@ pub struct World {
     /// the string-keyed index (prefix queries) and its oracle
     pub sidx: SIdx,
     pub soracle: BTreeMap<String, BTreeSet<u64>>,
+    /// `compact_buckets` rebuilt the bucket table and nothing was mutated since: the next flush shows its bins
+    pub compacted: bool,
 }
 
 pub fn hex_str(s: &str) -> String {
@@ -364,6 +372,7 @@ pub fn step(w: &mut Option<World>, line: &str) -> Result<Vec<StepObs>, String> {
             now: 1000,
             sidx: SIdx::new("c10s".into(), Some(BTreeConfig { bucket_overload_size: 64, allow_duplicates: true })),
             soracle: BTreeMap::new(),
+            compacted: false,
         });
         let mut o = obs("new", &format!("new {}", unique as u8), "ok".into());
         o.hits.push(format!("cfg:unique={}", unique as u8));
@@ -371,6 +380,9 @@ pub fn step(w: &mut Option<World>, line: &str) -> Result<Vec<StepObs>, String> {
         return Ok(vec![o]);
     }
     let w = w.as_mut().ok_or("first line must be `new U OV`")?;
+    if matches!(t[0], "ins" | "rem" | "insa" | "rema" | "upd" | "reload" | "legacy" | "stale") {
+        w.compacted = false;
+    }
     w.now += 1;
     let now = w.now;
     let int = |s: &str| s.parse::<i64>().map_err(|e| format!("{s}: {e}"));
@@ -664,6 +676,7 @@ pub fn step(w: &mut Option<World>, line: &str) -> Result<Vec<StepObs>, String> {
             if new < old {
                 o.hits.push("compact:shrunk".into());
             }
+            w.compacted = old > 1;
             let keys = ks(&w.idx.keys(None, None));
             let exp = ks(&w.oracle.keys().copied().collect::<Vec<_>>());
             Ok(vec![o.expect("compact", "keys() after compact_buckets", &exp, &keys)])
@@ -844,13 +857,50 @@ fn finish_flush(w: &mut World, mut o: StepObs, run: FlushRun, crash: Option<u64>
             }
         }
     }
+    // the flush right after a compaction shows the bins of its first-fit packing
+    let mut extra: Vec<StepObs> = Vec::new();
+    if w.compacted {
+        let limit = w.overload.max(64);
+        let bins: Vec<(u32, Vec<(i64, usize)>)> = run.writes.iter().filter_map(|x| if let Wr::Put(b, _, d) = x { Some((*b, bucket_sizes(d))) } else { None }).collect();
+        let mut seen: BTreeSet<i64> = BTreeSet::new();
+        let mut dup = None;
+        for (_, es) in &bins {
+            for (k, _) in es {
+                if !seen.insert(*k) {
+                    dup = Some(*k);
+                }
+            }
+        }
+        let all: BTreeSet<i64> = w.oracle.keys().copied().collect();
+        o.hits.push("compact:bins_checked".into());
+        o = o.expect("compact-packing", "after compact_buckets every key sits in exactly one bucket object", &format!("{all:?} once each"), &if dup.is_some() || seen != all { format!("duplicate {dup:?}, keys {seen:?}") } else { format!("{all:?} once each") });
+        let bad = bins.iter().find(|(_, es)| es.len() > 1 && es.iter().map(|e| e.1).sum::<usize>() >= limit);
+        o = o.expect("compact-packing", &format!("every bin of compact_buckets stays below bucket_overload_size = {limit} unless it holds one item"), "ok", &bad.map(|b| format!("bucket {} = {:?}", b.0, b.1)).unwrap_or_else(|| "ok".into()));
+        // with pairwise distinct size estimates the item order (size descending) is determined: the
+        // model's packing must produce the very same bins
+        let mut items: Vec<(i64, usize)> = bins.iter().flat_map(|b| b.1.iter().copied()).collect();
+        items.sort_by(|a, b| b.1.cmp(&a.1));
+        let distinct = items.windows(2).all(|x| x[0].1 != x[1].1);
+        if distinct && !items.is_empty() && w.store.meta.is_some() {
+            o.hits.push("compact:bins_compared_with_model".into());
+            let mut real: Vec<(u32, Vec<i64>)> = bins.iter().map(|(b, es)| { let mut ks: Vec<i64> = es.iter().map(|e| e.0).collect(); ks.sort_unstable(); (*b, ks) }).collect();
+            real.sort();
+            extra.push(StepObs {
+                what: "compact:pack".into(),
+                model_line: Some(format!("pack {limit} {}", items.iter().map(|(k, z)| format!("{k}:{z}")).collect::<Vec<_>>().join(","))),
+                impl_raw: real.iter().map(|(_, ks)| ks.iter().map(|k| k.to_string()).collect::<Vec<_>>().join(",")).collect::<Vec<_>>().join("|"),
+                ..Default::default()
+            });
+        }
+        w.compacted = false;
+    }
     let k = crash.map(|r| (r % (n as u64 + 1)) as usize);
     o.model_line = Some(format!(
         "flw {}{}",
         k.map(|k| k.to_string()).unwrap_or_else(|| "-".into()),
         run.writes.iter().map(|x| format!(" {}", wr_tokens(x))).collect::<String>()
     ));
-    o.impl_raw = format!("shape:1 strict:1 ci:{} new:1 | {}", run.nb, dumps.join(" | "));
+    o.impl_raw = format!("shape:1 strict:1 vol:1 ci:{} new:1 | {}", run.nb, dumps.join(" | "));
     let applied = k.unwrap_or(n);
     for wr in &run.writes[..applied] {
         w.store.apply(wr);
@@ -863,7 +913,11 @@ fn finish_flush(w: &mut World, mut o: StepObs, run: FlushRun, crash: Option<u64>
     }
     if crash.is_some() {
         o.hits.push(format!("crash:at={}", if applied <= run.nb { "before_commit" } else if applied == run.nb + 1 { "after_commit" } else { "during_deletes" }));
-        return reload_steps(w, "crash", vec![o]);
+        let mut pre = vec![o];
+        pre.extend(extra);
+        return reload_steps(w, "crash", pre);
     }
-    Ok(vec![o])
+    let mut v = vec![o];
+    v.extend(extra);
+    Ok(v)
 }
